@@ -338,6 +338,31 @@ def migrateMats (s : Store) (n : Nat) (memo : Memo) : List Nat → Store × Memo
     let r := migrateMat s m n true memo
     if r.2.2 then migrateMats r.1 n r.2.1 ms else r
 
+/-! ## several migrations sharing one caller-supplied `taxon_mapping_memo` -/
+
+inductive MigKind where | tree | list | mat
+deriving DecidableEq, Repr
+
+/-- one `obj.migrate_taxon_namespace(ns, unify_taxa_by_label=unify, taxon_mapping_memo=memo)` of a chain -/
+structure Mig where
+  kind : MigKind
+  obj : Nat
+  ns : Nat
+  unify : Bool
+deriving Repr
+
+/-- `memo = {}` once, then the migrations one after the other with that same dictionary (possibly into different namespaces:
+a memoized taxon that is not a member of the current target is accessioned into it); a refused matrix pass ends the chain -/
+def chain (s : Store) (memo : Memo) : List Mig → Store × Bool
+  | [] => (s, true)
+  | g :: gs =>
+    match g.kind with
+    | .tree => let r := migrateTree s g.obj g.ns g.unify memo; chain r.1 r.2 gs
+    | .list => let r := migrateTl s g.obj g.ns g.unify memo; chain r.1 r.2 gs
+    | .mat =>
+      let r := migrateMat s g.obj g.ns g.unify memo
+      if r.2.2 then chain r.1 r.2.1 gs else (r.1, false)
+
 /-! ## the alphabet -/
 
 inductive Src where
@@ -389,6 +414,7 @@ inductive Op where
   | tlget (n : Nat) (pre : List String) (docs : List (List String))   -- `TreeList.get(..., taxon_namespace=n)`
   | tget (n : Nat) (pre : List String) (labels : List String)         -- `Tree.get(..., taxon_namespace=n)`
   | mget (n : Nat) (last : Bool) (pre rows : List String)             -- `CharacterMatrix.get(..., taxon_namespace=n)`
+  | chain (gs : List Mig)                               -- migrations sharing one caller-supplied memo
   | taadd (n t : Nat)                                   -- `TreeArray(taxon_namespace=n).add_tree(t)`: holds no tree, refuses a foreign one
 deriving Repr
 
@@ -540,6 +566,7 @@ def step (s : Store) : Op → Store × Status
         setTrees r.1 a.2 r.2
     (s3, .ok)
   | .taadd n t => (s, if (s.tree t).ns = n then .ok else .nsIdentity)
+  | .chain gs => ((chain s [] gs).1, if (chain s [] gs).2 then .ok else .conflict)
   | .readx l pre docs => (readInto s l pre docs, .ok)
   | .tlget n pre docs => (readInto (allocTl s n).1 (allocTl s n).2 pre docs, .ok)
   | .tget n pre labels =>
@@ -605,6 +632,8 @@ def idsOk (s : Store) : Op → Bool
   | .dsattach d n => decide (d < s.nDs) && decide (n < s.nNs)
   | .dsunify d n => decide (d < s.nDs) && onsOk s n
   | .taadd n t => decide (n < s.nNs) && decide (t < s.nTree)
+  | .chain gs => gs.all (fun g => decide (g.ns < s.nNs) && (match g.kind with
+      | .tree => decide (g.obj < s.nTree) | .list => decide (g.obj < s.nTl) | .mat => decide (g.obj < s.nMat)))
   | .readx l _ _ => decide (l < s.nTl)
   | .tlget n _ _ | .tget n _ _ | .mget n _ _ _ => decide (n < s.nNs)
   | .newtreeseed l t => decide (l < s.nTl) && decide (t < s.nTree)
@@ -639,8 +668,20 @@ def tlRebindOk (s : Store) (l n : Nat) (exceptD : Option Nat) : Bool :=
   (s.tl l).ns == n ||
     ((s.tl l).trees.all (fun t => freeTree s t (some l)) && tlFreeOfDs s l n exceptD)
 
+/-- every migration of the chain is inside the ownership domain in the store it meets, and no matrix pass is refused -/
+def chainOk (s : Store) (memo : Memo) : List Mig → Bool
+  | [] => true
+  | g :: gs =>
+    match g.kind with
+    | .tree => rebindOk s g.obj g.ns none && chainOk (migrateTree s g.obj g.ns g.unify memo).1 (migrateTree s g.obj g.ns g.unify memo).2 gs
+    | .list => decide (g.obj < s.nTl) && tlRebindOk s g.obj g.ns none
+        && chainOk (migrateTl s g.obj g.ns g.unify memo).1 (migrateTl s g.obj g.ns g.unify memo).2 gs
+    | .mat => ((s.mat g.obj).ns == g.ns || matFreeOfDs s g.obj g.ns none) && (migrateMat s g.obj g.ns g.unify memo).2.2
+        && chainOk (migrateMat s g.obj g.ns g.unify memo).1 (migrateMat s g.obj g.ns g.unify memo).2.1 gs
+
 /-- the ownership part of the domain -/
 def owner (s : Store) : Op → Bool
+  | .chain gs => chainOk s [] gs
   | .append l t _ => rebindOk s t (s.tl l).ns (some l) && decide (t < s.nTree)
   | .insert l _ t _ => rebindOk s t (s.tl l).ns (some l) && decide (t < s.nTree)
   | .setitem l _ t => rebindOk s t (s.tl l).ns (some l) && decide (t < s.nTree)
